@@ -55,12 +55,15 @@ def _make_config_parser(cfg_file, overrides, additional, remove, species, exclud
     for override in itertools.chain.from_iterable(overrides):
       over_tuple = _create_override_tuple(override)
       k = (over_tuple.section, over_tuple.key)
+      # A repeated item takes its place in the sequence from its last occurrence
+      override_dict.pop(k, None)
       override_dict[k] = over_tuple
 
   if not remove is None:
     for override in itertools.chain.from_iterable(remove):
       over_tuple = _create_override_tuple(override, False)
       k = (over_tuple.section, over_tuple.key)
+      override_dict.pop(k, None)
       override_dict[k] = over_tuple
 
   overrides_list = list(override_dict.values())
